@@ -2085,7 +2085,13 @@ class Message(Group):
 
         if reference is not None:
             try:
-                reference = reference[name]
+                try:
+                    reference = reference[name]
+                except KeyError:
+                    # names are not case sensitive (Message('adt_a01') is an ADT_A01)
+                    if not isinstance(name, str) or name.upper() == name:
+                        raise
+                    reference = reference[name.upper()]
                 if reference[0] == 'mp':
                     raise LegacyMessageProfile()
             except KeyError:
